@@ -7,12 +7,16 @@ From SV Require Import Producer.Msg Producer.Actors Producer.Compose Producer.We
 Import ListNotations.
 Open Scope Z_scope.
 
+(* the internal markers a partition worker creates: &ProducerMessage{flags: syn} / {flags: fin} *)
+Definition is_marker (m : msg) : bool := (m_id m =? -1) && ((m_flags m =? F_SYN) || (m_flags m =? F_FIN)).
+
 Definition shape_ok (disp : bool) (e : effect) : bool :=
   match e with
-  | ENew m | EDone m => negb (is_data m)
-  | EAccept _ | ERawErr _ _ => disp
+  | ENew m => is_marker m
+  | EDone m => negb (is_data m)
+  | EAccept _ | ERawErr _ _ | EIc _ _ _ => disp
   | ESend DDisp _ => false
-  | ESend DRetry m => negb (fresh_un m)
+  | ESend DRetry m => negb (fresh_pass m)
   | _ => true
   end.
 Definition sh (d : bool) (l : list effect) : bool := forallb (shape_ok d) l.
@@ -26,30 +30,47 @@ Proof.
 Qed.
 
 Definition data_only (f : msg -> Z) : Prop := forall m, is_data m = false -> f m = 0.
+Definition marker_free (f : msg -> Z) : Prop :=
+  forall m, m_id m = -1 -> (m_flags m = F_SYN \/ m_flags m = F_FIN) -> f m = 0.
+Definition nonneg (f : msg -> Z) : Prop := forall m, 0 <= f m.
+
+Lemma data_only_marker_free f : data_only f -> marker_free f.
+Proof. intros H m _ [E|E]; apply H; unfold is_data; rewrite E; reflexivity. Qed.
+Lemma is_marker_free f m : marker_free f -> is_marker m = true -> f m = 0.
+Proof.
+  intros H E. unfold is_marker in E. apply andb_true_iff in E as [E1 E2]. apply Z.eqb_eq in E1.
+  apply H; [exact E1|]. apply orb_true_iff in E2 as [E2|E2]; apply Z.eqb_eq in E2; auto.
+Qed.
+Lemma is_marker_not_data m : is_marker m = true -> is_data m = false.
+Proof.
+  unfold is_marker, is_data. intros E. apply andb_true_iff in E as [_ E2].
+  apply orb_true_iff in E2 as [E2|E2]; apply Z.eqb_eq in E2; rewrite E2; reflexivity.
+Qed.
 
 Definition eff_ra (e : effect) : Z := match e with ERawErr _ _ | EAccept _ => 1 | _ => 0 end.
 
-Lemma shape_sums f d e : data_only f -> shape_ok d e = true ->
-  eff_sink f e = 0 /\ eff_new f e = 0 /\ eff_fresh e = 0 /\ (d = false -> eff_ra e = 0).
+Lemma sh_new f d l : marker_free f -> sh d l = true -> esum (eff_new f) l = 0.
 Proof.
-  intros Hd H. destruct e; cbn [shape_ok eff_sink eff_new eff_fresh eff_ra] in *;
-    try (split; [reflexivity|split; [reflexivity|split; [reflexivity|intros _; reflexivity]]]).
-  - destruct d0; try (split; [reflexivity|split; [reflexivity|split; [reflexivity|intros _; reflexivity]]]); [discriminate|].
-    apply negb_true_iff in H. rewrite H. split; [reflexivity|split; [reflexivity|split; [reflexivity|intros _; reflexivity]]].
-  - split; [reflexivity|split; [reflexivity|split; [reflexivity|intros E; subst d; discriminate]]].
-  - apply negb_true_iff in H. rewrite (Hd _ H). split; [reflexivity|split; [reflexivity|split; [reflexivity|intros _; reflexivity]]].
-  - split; [reflexivity|split; [reflexivity|split; [reflexivity|intros E; subst d; discriminate]]].
-  - apply negb_true_iff in H. rewrite (Hd _ H). split; [reflexivity|split; [reflexivity|split; [reflexivity|intros _; reflexivity]]].
+  intros Hm. induction l as [|e l IH]; [reflexivity|]. rewrite sh_cons. intros H. apply andb_true_iff in H as [H1 H2].
+  rewrite esum_cons, (IH H2). destruct e; try reflexivity. cbn in *. rewrite (is_marker_free f m Hm H1). reflexivity.
 Qed.
-
-Lemma sh_sums f d l : data_only f -> sh d l = true ->
-  esum (eff_sink f) l = 0 /\ esum (eff_new f) l = 0 /\ esum eff_fresh l = 0 /\ (d = false -> esum eff_ra l = 0).
+Lemma sh_sink_nonneg f l : nonneg f -> 0 <= esum (eff_sink f) l.
+Proof. intros Hn. induction l as [|e l IH]; [cbn; lia|]. rewrite esum_cons. destruct e; cbn [eff_sink]; try lia. specialize (Hn m). lia. Qed.
+Lemma sh_sink_data f d l : data_only f -> sh d l = true -> esum (eff_sink f) l = 0.
 Proof.
-  intros Hd. induction l as [|e l IH]; [intros _; split; [reflexivity|split; [reflexivity|split; [reflexivity|intros _; reflexivity]]]|].
-  rewrite sh_cons. intros H. apply andb_true_iff in H as [H1 H2]. destruct (IH H2) as (A & B & C & D).
-  destruct (shape_sums f d e Hd H1) as (A1 & B1 & C1 & D1).
-  rewrite !esum_cons, A, B, C, A1, B1, C1.
-  split; [reflexivity|split; [reflexivity|split; [reflexivity|intros E; rewrite (D E), (D1 E); reflexivity]]].
+  intros Hd. induction l as [|e l IH]; [reflexivity|]. rewrite sh_cons. intros H. apply andb_true_iff in H as [H1 H2].
+  rewrite esum_cons, (IH H2). destruct e; try reflexivity. cbn in *. apply negb_true_iff in H1. rewrite (Hd _ H1). reflexivity.
+Qed.
+Lemma sh_fresh d l : sh d l = true -> esum eff_fresh l = 0.
+Proof.
+  induction l as [|e l IH]; [reflexivity|]. rewrite sh_cons. intros H. apply andb_true_iff in H as [H1 H2].
+  rewrite esum_cons, (IH H2). destruct e; try reflexivity. destruct d0; try reflexivity; cbn in *; [discriminate|].
+  apply negb_true_iff in H1. unfold fresh_un. rewrite H1. reflexivity.
+Qed.
+Lemma sh_false_ra l : sh false l = true -> esum eff_ra l = 0.
+Proof.
+  induction l as [|e l IH]; [reflexivity|]. rewrite sh_cons. intros H. apply andb_true_iff in H as [H1 H2].
+  rewrite esum_cons, (IH H2). destruct e; try reflexivity; cbn in H1; discriminate.
 Qed.
 
 (* for the constant weight: the identity that links the counter to the weights *)
@@ -256,4 +277,117 @@ Lemma rb_shape c ep k ms e l : sh false (rb_step c ep k ms e l) = true.
 Proof.
   unfold rb_step. destruct (first_exhausted c ms); [destruct (c_fix_rb c); [apply sh_return_errors|reflexivity]|].
   destruct l; [reflexivity|apply sh_return_errors].
+Qed.
+
+(* ---------------------------------------------------------------- only partition workers create messages *)
+
+Definition no_new (l : list effect) : bool := forallb (fun e => match e with ENew _ => false | _ => true end) l.
+Lemma no_new_app a b : no_new (a ++ b) = no_new a && no_new b.
+Proof. apply forallb_app. Qed.
+Lemma no_new_sum f l : no_new l = true -> esum (eff_new f) l = 0.
+Proof.
+  induction l as [|e l IH]; [reflexivity|]. cbn [no_new forallb]. intros H. apply andb_true_iff in H as [H1 H2].
+  rewrite esum_cons, (IH H2). destruct e; try reflexivity; discriminate.
+Qed.
+Lemma nn_retry_msgs c l e : no_new (retry_msgs c l e) = true.
+Proof.
+  unfold retry_msgs. induction l as [|m l IH]; [reflexivity|]. cbn [map no_new forallb]. fold (no_new (map (fun m0 => retry_msg c m0 e) l)).
+  rewrite IH. unfold retry_msg. destruct (c_retry_max c <=? m_retries m)%nat; reflexivity.
+Qed.
+Lemma nn_retry_msg c m e : no_new [retry_msg c m e] = true.
+Proof. unfold retry_msg. destruct (c_retry_max c <=? m_retries m)%nat; reflexivity. Qed.
+Lemma nn_return_errors l e : no_new (return_errors l e) = true.
+Proof. unfold return_errors. induction l; simpl; auto. Qed.
+Lemma nn_successes l b : no_new (successes l b) = true.
+Proof. revert b; induction l; intros; simpl; auto. Qed.
+Lemma nn_all_retry c ps e : no_new (all_retry c ps e) = true.
+Proof. induction ps as [|[k l] r IH]; [reflexivity|]. cbn [all_retry]. rewrite no_new_app, nn_retry_msgs, IH. reflexivity. Qed.
+Lemma nn_all_errors ps e : no_new (all_errors ps e) = true.
+Proof. induction ps as [|[k l] r IH]; [reflexivity|]. cbn [all_errors]. rewrite no_new_app, nn_return_errors, IH. reflexivity. Qed.
+
+Lemma nn_apply_ics id k ics pan sz h : no_new (snd (apply_ics id k ics pan sz h)) = true.
+Proof.
+  revert k pan sz h. induction ics as [|ic r IH]; intros; [reflexivity|]. cbn [apply_ics].
+  match goal with |- context [apply_ics id (S k) r ?a ?b ?d] => specialize (IH (S k) a b d); destruct (apply_ics id (S k) r a b d) as [res effs] end.
+  cbn [snd] in *. cbn [no_new forallb]. exact IH.
+Qed.
+Lemma nn_disp c d m : no_new (snd (disp_step c d m)) = true.
+Proof.
+  unfold disp_step. destruct (is_shut m); [reflexivity|]. destruct (fresh_pass m && d_shut d); [reflexivity|].
+  assert (P : no_new (if fresh_pass m then [EAccept m] else []) = true) by (destruct (fresh_pass m); reflexivity).
+  set (doic := if c_fix_ic c then fresh_pass m && is_data m else true). destruct doic.
+  - pose proof (nn_apply_ics (m_id m) 0%nat (c_ics c) (m_ipanic m) (m_size m) (m_hdr m)) as H1.
+    destruct (apply_ics _ _ _ _ _ _) as [[sz h] ics]. cbn [snd] in *.
+    destruct (negb (c_v2 c) && h); [|destruct (c_max_msg_bytes c <? sz)]; cbn [snd]; rewrite !no_new_app, P, H1; reflexivity.
+  - destruct (negb (c_v2 c) && m_hdr m); [|destruct (c_max_msg_bytes c <? m_size m)]; cbn [snd]; rewrite !no_new_app, P; reflexivity.
+Qed.
+Lemma nn_tp m : no_new (tp_step m) = true.
+Proof. unfold tp_step. destruct (fresh_pass m); [destruct (0 <=? m_pres m)|]; reflexivity. Qed.
+
+Lemma nn_do_add c st m : no_new (snd (fst (do_add c st m))) = true.
+Proof. unfold do_add. destruct (m_encfail m); [reflexivity|]. match goal with |- context [if ?b then _ else _] => destruct b end; reflexivity. Qed.
+Lemma nn_after_over c st m : no_new (snd (fst (after_over c st m))) = true.
+Proof. unfold after_over. destruct (c_idem c && negb (s_epoch (b_buf st) =? m_epoch m)); [reflexivity|apply nn_do_add]. Qed.
+Lemma nn_recv_data c st m : no_new (snd (fst (recv_data c st m))) = true.
+Proof. unfold recv_data. destruct (would_overflow c (b_buf st) m); [reflexivity|apply nn_after_over]. Qed.
+Lemma nn_hs_phase1 c b r ps : no_new (hs_phase1 c b r ps) = true.
+Proof.
+  induction ps as [|[k l] rest IH]; [reflexivity|]. cbn [hs_phase1]. rewrite no_new_app, IH, andb_true_r.
+  destruct r as [e enc| |bl]; [reflexivity|apply nn_successes|].
+  destruct (block_lookup k bl) as [[e off]|]; [|apply nn_return_errors].
+  destruct (e =? 0); [apply nn_successes|]. destruct (e =? E_DUPLICATE); [apply nn_successes|].
+  destruct (retriable e); destruct (c_retry_max c =? 0)%nat; cbn [app no_new forallb]; rewrite ?nn_return_errors; try reflexivity;
+    fold (no_new (return_errors l e)); rewrite nn_return_errors; reflexivity.
+Qed.
+Lemma nn_hs_phase2 c bl : forall ps cur buf, no_new (snd (hs_phase2 c bl ps cur buf)) = true.
+Proof.
+  induction ps as [|[k l] r IH]; intros; [reflexivity|]. cbn [hs_phase2].
+  destruct (block_lookup k bl) as [[e off]|]; [|apply IH]. destruct (retriable e); [|apply IH].
+  specialize (IH (cur_set k e cur) (part_drop k buf)).
+  destruct (hs_phase2 c bl r (cur_set k e cur) (part_drop k buf)) as [[cur' buf'] effs']. cbn [snd] in *.
+  rewrite !no_new_app, IH, nn_retry_msgs. destruct (c_idem c); [reflexivity|]. rewrite nn_retry_msgs. reflexivity.
+Qed.
+Lemma nn_handle_response c ep st sent r : no_new (snd (handle_response c ep st sent r)) = true.
+Proof.
+  unfold handle_response.
+  assert (HX : forall X : bp * list effect, no_new (snd X) = true ->
+     no_new (snd (let '(st1, effs) := X in if set_empty (b_buf st1) then (rollover st1 (ep + bumps effs), effs) else (st1, effs))) = true).
+  { intros [st1 effs] H. destruct (set_empty (b_buf st1)); exact H. }
+  apply HX. destruct r as [e [|]| |bl]; cbn [snd].
+  - apply nn_all_errors.
+  - cbn [no_new forallb]. fold (no_new (all_retry c (s_parts sent) e ++ all_retry c (s_parts (b_buf st)) e)).
+    rewrite no_new_app, !nn_all_retry. reflexivity.
+  - apply nn_hs_phase1.
+  - destruct (c_retry_max c =? 0)%nat; [apply nn_hs_phase1|].
+    pose proof (nn_hs_phase2 c bl (s_parts sent) (b_cur st) (s_parts (b_buf st))) as H2.
+    destruct (hs_phase2 c bl (s_parts sent) (b_cur st) (s_parts (b_buf st))) as [[cur buf] e2]. cbn [snd] in *.
+    rewrite no_new_app, nn_hs_phase1, H2. reflexivity.
+Qed.
+Lemma nn_bp c ep st i : no_new (snd (bp_step c ep st i)) = true.
+Proof.
+  unfold bp_step.
+  assert (HX : no_new (snd (fst (bp_core c ep st i))) = true); [|destruct (bp_core c ep st i) as [[st' effs] upd]; exact HX].
+  unfold bp_core. destruct i as [m| | | |sent r].
+  - destruct (b_mode st); try reflexivity. destruct (b_wait st); try reflexivity.
+    destruct (is_syn m); [reflexivity|]. destruct (needs_retry st m); [apply nn_retry_msg|apply nn_recv_data].
+  - destruct (b_mode st), (b_wait st); reflexivity.
+  - destruct (b_timer st && flush_poll st); reflexivity.
+  - destruct (flush_enabled st); [|reflexivity]. destruct (b_wait st) as [|m|m]; [reflexivity| |].
+    + pose proof (nn_after_over c (with_wait (rollover st ep) WNone) m) as H.
+      destruct (after_over c (with_wait (rollover st ep) WNone) m) as [[st2 e2] u]. cbn [fst snd] in *. exact H.
+    + pose proof (nn_do_add c (with_wait (rollover st ep) WNone) m) as H.
+      destruct (do_add c (with_wait (rollover st ep) WNone) m) as [[st2 e2] u]. cbn [fst snd] in *. exact H.
+  - pose proof (nn_handle_response c ep st sent r) as H.
+    destruct (handle_response c ep st sent r) as [st1 effs]. cbn [snd] in H.
+    destruct (b_wait st1) as [|m|m]; [exact H| |].
+    + destruct (needs_retry st1 m); [cbn [fst snd]; rewrite no_new_app, H, nn_retry_msg; reflexivity|].
+      destruct (would_overflow c (b_buf st1) m); [exact H|].
+      pose proof (nn_after_over c (with_wait st1 WNone) m) as H2.
+      destruct (after_over c (with_wait st1 WNone) m) as [[st2 e2] u]. cbn [fst snd] in *. rewrite no_new_app, H, H2. reflexivity.
+    + destruct (needs_retry st1 m); [cbn [fst snd]; rewrite no_new_app, H, nn_retry_msg; reflexivity|exact H].
+Qed.
+Lemma nn_rb c ep k ms e l : no_new (rb_step c ep k ms e l) = true.
+Proof.
+  unfold rb_step. destruct (first_exhausted c ms); [destruct (c_fix_rb c); [apply nn_return_errors|reflexivity]|].
+  destruct l; [reflexivity|apply nn_return_errors].
 Qed.
